@@ -43,6 +43,13 @@ func checkC08(p *Prog, r *Report) {
 	ruleC08Miss(p, a, r, res)
 	ruleC08NoConvert(p, a, r, res)
 	ruleCtxMergeOrder(p, a, r, "R-C08-ORDER")
+	// "names set by tags shadow context keys" also for a macro parameter the caller omitted: it is bound (to its
+	// default or to nil), so a same-named context key cannot show through
+	r.Begin("R-C08-MACRO-ANCHORS", "macro body executor found by role", 1)
+	if ma := resolveMacroAnchors(p, a, r); ma != nil {
+		r.Trivial("anchors", "-", "%d macro body executor(s)", len(ma.bodies))
+		ruleMacroBindAll(p, ma, r, "R-C08-MACROBIND")
+	}
 }
 
 // reflectCallsIn lists calls of reflect.Value method m in f.
